@@ -498,7 +498,7 @@ fn gen_model(rng: &mut Rng, cfg: &GenCfg) -> Model {
                     let mut ty = wrap(rng, &base);
                     let mut default = None;
                     if ty.is_nonnull() {
-                        if rng.chance(1, 6) { default = Some(lit(rng, &leaf_types, &ty, 1)); features.push("extra_nonnull_arg_with_default".into()); }
+                        if rng.chance(1, 12) { default = Some(lit(rng, &leaf_types, &ty, 1)); features.push("extra_nonnull_arg_with_default".into()); }
                         else if let Ty::NonNull(inner) = ty { ty = *inner; }
                     }
                     let a = Arg { name: format!("x{}", hdrs.iter().position(|x| x.name == h.name).unwrap()), ty, default, dirs: vec![], desc: None };
@@ -1129,6 +1129,15 @@ fn corpus() -> Vec<(&'static str, &'static str, &'static str)> {
         // appended after the witnesses above (coq/C05/Witness.v was printed from the cases above, keep their order)
         ("x_dup_dirarg_in_app", "corpus:dup_arg_shadows_ill_typed", "directive @d(x: Int) on OBJECT\ntype Query @d(x: 1, x: \"s\") { a: Int }\n"),
         ("valid", "corpus:interfaces", "interface A { f(a: Int): [A] }\ninterface B implements A { f(a: Int, b: String): [B!] g: U }\ntype Query implements B & A { f(a: Int, b: String, c: ID = 1): [Query!]! g: Query }\nunion U = Query\n"),
+        ("directive_args", "corpus:variables_inside_literals", "directive @d(x: [Int], y: In) on OBJECT\ninput In { a: Int, b: [In] }\ntype Query @d(x: [1, $v], y: {a: $w, b: [{a: $z}]}) { a: Int }\n"),
+        ("unknown_type", "corpus:value_for_unknown_type", "directive @d(x: Nope, y: [Nope!]) on OBJECT\ntype Query @d(x: 1, y: [2]) { a: Int }\n"),
+        ("output_in_input", "corpus:value_for_output_type", "directive @d(x: Query, u: U, i: I) on OBJECT\ninterface I { a: Int }\nunion U = Query\ntype Query @d(x: null, u: 1, i: {a: 1}) { a: Int }\n"),
+        ("x_dup_directive_def", "corpus:user_redefines_builtin_directive", "directive @deprecated(why: Int!) on OBJECT\ntype Query @deprecated(why: 1) { a: Int @deprecated(reason: \"x\") }\n"),
+        ("x_cross_kind_dup", "corpus:type_named_like_builtin_scalar", "type Int { a: String }\ntype Query { a: Int, b(x: Int): Float }\n"),
+        ("dup_type", "corpus:scalar_named_like_builtin_scalar", "scalar String\ntype Query { a: Int }\n"),
+        ("x_multi_schema", "corpus:two_schema_definitions", "schema { query: Query }\nschema { query: Query }\ntype Query { a: Int }\n"),
+        ("directive_repeated", "corpus:repeat_across_extension", "directive @once on OBJECT\ndirective @many repeatable on OBJECT\ntype Query @once @many @many { a: Int }\nextend type Query @once\n"),
+        ("valid", "corpus:enum_and_input_literals", "directive @d(e: [E!]! = [A], i: In!, s: Sc, f: Float, id: ID) on FIELD_DEFINITION\nenum E { A B }\nscalar Sc\ninput In { e: E = B, n: [In!], req: Boolean! }\ntype Query { a: Int @d(e: B, i: {req: true, n: [{req: false, e: null}]}, s: {any: [1, \"x\"]}, f: 3, id: 7) }\n"),
         ("iface_field_type", "corpus:nullable_for_nonnull", "interface A { f: Int! }\ntype Query implements A { f: Int }\n"),
         ("valid", "corpus:all_locations", "directive @y(n: Int) repeatable on SCHEMA | SCALAR | OBJECT | FIELD_DEFINITION | ARGUMENT_DEFINITION | INTERFACE | UNION | ENUM | ENUM_VALUE | INPUT_OBJECT | INPUT_FIELD_DEFINITION\ndirective @x(a: E = V, i: In = {r: 1} @y) repeatable on SCHEMA | SCALAR | OBJECT | FIELD_DEFINITION | ARGUMENT_DEFINITION | INTERFACE | UNION | ENUM | ENUM_VALUE | INPUT_OBJECT | INPUT_FIELD_DEFINITION\nenum E @y { V @y @deprecated }\ninput In @y { r: Int! @y, o: [In] @y(n: 2) }\nscalar S @x @specifiedBy(url: \"u\")\ninterface I @x { f(a: Int @x): S @x }\ntype Query implements I @x @x(a: V, i: {r: 2, o: [{r: 3}]}) { f(a: Int @x @deprecated): S @x }\nunion U @x = Query\nschema @x { query: Query }\n"),
     ]
